@@ -217,3 +217,64 @@ H('c08_pidman_step_u16', 'packet_id_manager', {'C08': 'quick'}, est=200, timeout
 S('st_id_calls_total', {'C08': 'quick', 'C05': 'thorough'}, est=200,
   bounds='release_packet_id / register_packet_id / acquire_packet_id on a connection with two ids in use, argument over all u16 (incl. 0 and max), release called twice',
   symbolic='a, b, q, op', encodes=['release_packet_id', 'register_packet_id', 'acquire_packet_id'])
+
+# =============================================================================== C14
+H('c14_total_size_kernel', 'core', {'C14': 'quick'}, est=20, timeout=600, mem='M',
+  bounds='remaining_length_to_total_size(rl) for all rl <= 268435455', symbolic='rl', encodes=['remaining_length_to_total_size', 'VariableByteInteger::from_u32'])
+S('st_send_puback_v5_limit', {'C14': 'quick'}, est=300,
+  bounds='v5.0 PUBACK (4 bytes) sent by a connected server under a peer limit L over all u32 >= 1', symbolic='L, id, keep-alive', encodes=['process_send_v5_0_puback', 'validate_maximum_packet_size_send'])
+S('st_send_publish_v5_limit', {'C14': 'quick', 'C08': 'quick'}, stubs=_st, est=500,
+  bounds='v5.0 QoS1 PUBLISH (9 bytes) sent by a connected client under a limit L in 7..=11', symbolic='L, id', encodes=['process_send_v5_0_publish'])
+S('st_send_publish_v5_automap_limit', {'C14': 'quick', 'C13': 'thorough'}, stubs=_st, est=500, mem='L',
+  bounds='v5.0 QoS0 PUBLISH (7 bytes) with automatic alias mapping on (Topic Alias Maximum 3, empty table) under a limit L in 6..=12', symbolic='L', encodes=['process_send_v5_0_publish', 'TopicAliasSend', 'GenericPublish::add_topic_alias'])
+S('st_recv_packet_too_large', {'C14': 'quick', 'C19': 'thorough'}, stubs=_st, est=500,
+  bounds='a 5-byte frame received by a connected v5.0 server under a local limit L over all u32 >= 1', symbolic='L, keep-alive', encodes=['process_recv_packet', 'process_send_v5_0_disconnect'])
+
+# =============================================================================== C06 resume / C16 restore
+S('st_recv_connack_v311_resume', {'C06': 'quick', 'C16': 'quick', 'C08': 'thorough'}, stubs=_st, est=500,
+  bounds='CONNACK (accepted, session present symbolic) received by a connecting persistent v3.1.1 client with stored [QoS1 PUBLISH(i), PUBREL(k)], ids symbolic', symbolic='i, k, session present, keep-alive',
+  encodes=['process_recv_v3_1_1_connack', 'send_stored', 'clear_store_related'])
+S('st_restore_packets_v311', {'C16': 'quick'}, stubs=_st, est=500,
+  bounds='restore_packets([QoS1 PUBLISH(i), QoS2 PUBLISH(j), PUBREL(k)]) into a fresh v3.1.1 client, ids symbolic; then acquire/register', symbolic='i, j, k', encodes=['restore_packets', 'acquire_packet_id', 'register_packet_id'])
+S('st_restore_packets_duplicate_id', {'C16': 'quick'}, stubs=_st, est=400,
+  bounds='restore_packets([QoS1 PUBLISH(i), QoS2 PUBLISH(i)]) (duplicate identifier)', symbolic='i', encodes=['restore_packets'])
+S('st_handled_export_restore', {'C16': 'quick', 'C07': 'quick'}, est=100,
+  bounds='get_qos2_publish_handled -> restore_qos2_publish_handled into a fresh object, two ids, universal probe', symbolic='h, g, q', encodes=['get_qos2_publish_handled', 'restore_qos2_publish_handled'])
+
+# =============================================================================== C11 send matrix (c11_h.rs, generated)
+import os as _os, sys as _sys
+_sys.path.insert(0, _os.path.join(_os.path.dirname(_os.path.abspath(__file__)), '..', 'gen'))
+import gen_c11 as _g11
+H('c11_const_table', 'c11', {'C11': 'quick'}, est=20, timeout=600, mem='M',
+  bounds='29 packet types x 3 roles: `T: Sendable<Role, u16>` evaluated at compile time against the run-time role rule of send()', symbolic='none (finite table)',
+  encodes=['Sendable / SendableRole / SendableVersion trait impl tables'])
+_c11_quick = {'c11_cell_client_v311_subscribe', 'c11_cell_server_v5_connack', 'c11_cell_any_v5_publish_q1', 'c11_cell_client_v311_pubrel'}
+_c11_opt = {'c11_cell_server_v311_pingreq', 'c11_cell_client_v5_auth', 'c11_cell_any_v311_connect', 'c11_cell_server_v5_suback', 'c11_cell_client_v5_disconnect', 'c11_cell_any_v311_publish_q0'}
+for _kind, _v5, _ctor, _rr, _sr, _own in _g11.KINDS:
+    for _rn, _rt in _g11.ROLES:
+        _n = 'c11_cell_%s_%s' % (_rn, _kind)
+        _t = 'quick' if _n in _c11_quick else ('opt' if _n in _c11_opt else 'thorough')
+        H(_n, 'c11', {'C11': _t}, est=500, timeout=3600, mem='M', stubs=_st,
+          bounds='public send() of one %s packet on a %s-role connection: connection version in {v3.1.1, v5.0, undetermined}, status in {disconnected, connecting, connected}, need_store and offline_publish symbolic (36 cells)' % (_kind, _rn),
+          symbolic='version, status, need_store, offline_publish, packet id', encodes=['GenericConnection::send', 'process_send_* of that kind'])
+
+S('st_recv_connect_v311_server', {'C15': 'quick', 'C10': 'quick', 'C05': 'thorough', 'C17': 'thorough'}, stubs=_st, est=500,
+  bounds='CONNECT (keep-alive all u16, clean flag symbolic) received by a disconnected v3.1.1 server that kept the receive timeout of an earlier connection (all u16)', symbolic='old keep-alive, keep-alive, clean, need_store',
+  encodes=['process_recv_v3_1_1_connect', 'v3_1_1::Connect::parse', 'initialize', 'refresh_pingreq_recv'])
+S('st_recv_connect_v5_server_tam', {'C05': 'quick', 'C13': 'thorough'}, stubs=_st, est=900, mem='XL', timeout=3600,
+  uws=[(r'PropertiesParse5parse', 3)],
+  bounds='v5.0 CONNECT with one property Topic Alias Maximum (all u16 incl. 0), keep-alive all u16, received by a disconnected server', symbolic='keep-alive, Topic Alias Maximum',
+  encodes=['process_recv_v5_0_connect', 'v5_0::Connect::parse', 'Properties::parse', 'TopicAliasSend::new'])
+
+for _v in ('v311', 'v5'):
+    S('st_send_publish_%s_never_dropped' % _v, {'C06': 'quick' if _v == 'v311' else 'thorough', 'C11': 'thorough', 'C08': 'thorough'}, stubs=_st, est=600, mem='L',
+      bounds='QoS1/2 PUBLISH (%s) sent in every status x need_store x offline_publish combination (client), id symbolic' % _v, symbolic='status, need_store, offline_publish, QoS, id',
+      encodes=['process_send_%s_publish' % ('v3_1_1' if _v == 'v311' else 'v5_0'), 'GenericStore::add'])
+
+S('st_erase_stored_publish_v5', {'C12': 'quick', 'C06': 'thorough', 'C08': 'thorough'}, stubs=_st, est=500,
+  bounds='erase_stored_publish(x), x over all u16, on a persistent v5.0 client with stored [QoS1|2 PUBLISH(i), PUBREL(k)], Receive Maximum M symbolic', symbolic='i, k, x, QoS, M',
+  encodes=['erase_stored_publish', 'GenericStore::erase_publish'])
+
+S('st_send_pubrec_v5_handled', {'C07': 'quick', 'C12': 'thorough'}, est=400,
+  bounds='PUBREC (no reason code, or any defined reason code) sent by a connected v5.0 server for a handled QoS2 id; another handled id present', symbolic='h, g, reason code byte, with/without reason code',
+  encodes=['process_send_v5_0_pubrec', 'v5_0::GenericPubrec::builder', 'PubrecReasonCode::try_from'])
